@@ -14,6 +14,7 @@ import (
 	ds "github.com/bronlabs/bron-crypto/pkg/base/datastructures"
 	"github.com/bronlabs/bron-crypto/pkg/base/datastructures/bitset"
 	"github.com/bronlabs/bron-crypto/pkg/base/mat"
+	"github.com/bronlabs/bron-crypto/pkg/base/polynomials"
 	"github.com/bronlabs/bron-crypto/pkg/base/serde"
 	"github.com/bronlabs/bron-crypto/pkg/commitments/pedersencom"
 	"github.com/bronlabs/bron-crypto/pkg/mpc"
@@ -649,6 +650,65 @@ func registerMatrices() {
 				return nil, err
 			}
 			return mod.NewRowMajor(collectIter(d.Iter())...)
+		},
+	})
+}
+
+// polynomials over the k256 scalar field and over k256 points
+func registerPolynomials() {
+	fK := k256.NewScalarField()
+	g := k256.NewCurve().Generator()
+	coeffs := func(n int) []KS {
+		out := make([]KS, n)
+		for i := range out {
+			switch i % 3 {
+			case 0:
+				out[i] = fK.One().Neg()
+			case 1:
+				out[i] = fK.Zero()
+			default:
+				out[i] = must(fK.Random(stream(fmt.Sprintf("poly/%d/%d", n, i))))
+			}
+		}
+		return out
+	}
+	add(spec[*polynomials.Polynomial[KS]]{
+		name: "polynomials.Polynomial[k256.Scalar]", covers: "pkg/base/polynomials.Polynomial", group: "mat",
+		gen: func() []nv[*polynomials.Polynomial[KS]] {
+			ring := must(polynomials.NewPolynomialRing(fK))
+			var out []nv[*polynomials.Polynomial[KS]]
+			for _, n := range []int{1, 2, 4} {
+				out = append(out, nv[*polynomials.Polynomial[KS]]{fmt.Sprintf("deg%d", n-1), must(ring.New(coeffs(n)...))})
+			}
+			out = append(out, nv[*polynomials.Polynomial[KS]]{"zero", must(ring.New())})
+			return out
+		},
+		eq: func(a, b *polynomials.Polynomial[KS]) bool { return a.Equal(b) },
+		valid: func(d *polynomials.Polynomial[KS]) (*polynomials.Polynomial[KS], error) {
+			ring, err := polynomials.NewPolynomialRing(fK)
+			if err != nil {
+				return nil, err
+			}
+			return ring.New(d.Coefficients()...)
+		},
+	})
+	add(spec[*polynomials.ModuleValuedPolynomial[KP, KS]]{
+		name: "polynomials.ModuleValuedPolynomial[k256]", covers: "pkg/base/polynomials.ModuleValuedPolynomial", group: "mat",
+		gen: func() []nv[*polynomials.ModuleValuedPolynomial[KP, KS]] {
+			ring := must(polynomials.NewPolynomialRing(fK))
+			var out []nv[*polynomials.ModuleValuedPolynomial[KP, KS]]
+			for _, n := range []int{1, 3} {
+				out = append(out, nv[*polynomials.ModuleValuedPolynomial[KP, KS]]{fmt.Sprintf("deg%d", n-1), must(polynomials.LiftPolynomial[KP, KS](must(ring.New(coeffs(n)...)), g))})
+			}
+			return out
+		},
+		eq: func(a, b *polynomials.ModuleValuedPolynomial[KP, KS]) bool { return a.Equal(b) },
+		valid: func(d *polynomials.ModuleValuedPolynomial[KP, KS]) (*polynomials.ModuleValuedPolynomial[KP, KS], error) {
+			mod, err := polynomials.NewPolynomialModule[KP, KS](k256.NewCurve())
+			if err != nil {
+				return nil, err
+			}
+			return mod.New(d.Coefficients()...)
 		},
 	})
 }
